@@ -176,3 +176,20 @@ Definition grun_case (c : case) : list (list Z) :=
   let gsys := map proj (map init_store cfgs) in
   (ret_obs RUnit ++ flat_map gstore_obs gsys)
     :: map (fun x : list gstore * ret => ret_obs (snd x) ++ flat_map gstore_obs (fst x)) (grun gsys ops).
+
+(* final system after a history, over the generated functions *)
+Fixpoint gfinal (sys : list gstore) (ops : list op) : list gstore :=
+  match ops with
+  | [] => sys
+  | o :: rest => gfinal (fst (gstep sys o)) rest
+  end.
+
+Theorem gfinal_ok : forall ops sys,
+  Forall (op_addr_ok (length sys)) ops ->
+  gfinal (map proj sys) ops = map proj (final cf itf false sys ops).
+Proof.
+  induction ops as [|o rest IH]; intros sys Ha; cbn [gfinal final]; [reflexivity|].
+  inversion Ha as [|? ? Ho Hrest]; subst.
+  rewrite gstep_ok by exact Ho. cbn [fst].
+  apply IH. rewrite step_length. exact Hrest.
+Qed.
